@@ -74,6 +74,12 @@ type sysCase struct {
 	// coordinator and the sidecars run with --inject.kubernetes-sa-path pointing at the directories where THEIR
 	// copies of the token are mounted
 	SAPath bool `json:"saPath,omitempty"`
+	// Drift: one more sidecar is listed behind the others; it is healthy and reachable but runs its own
+	// configuration file, which differs from the coordinator's in a scrape interval - it is never in sync
+	Drift bool `json:"drift,omitempty"`
+	// StopAt: at this cycle an operator stops scraping through the coordinator's API (extra configuration with a
+	// reason), four cycles later scraping is resumed; 0 = never
+	StopAt int `json:"stopAt,omitempty"`
 	// DropRule: job0 and job1 start with metric_relabel_configs that drop drop_.* samples
 	DropRule bool       `json:"dropRule,omitempty"`
 	Faults   []sysFault `json:"faults,omitempty"`
@@ -189,6 +195,10 @@ type shardProc struct {
 	statusGets int64
 	cfgPosts   int64 // configuration pushes the coordinator sent to this shard
 	cfgPosts60 int64 // ... up to cycle 60
+	targetPosts int64 // target updates sent to this shard
+	extraPosts  int64 // extra-config updates sent to this shard
+	drifted     bool  // runs its own configuration file, which differs from the coordinator's: never in sync
+	stopWindow  int32 // scraping is (being) stopped or resumed by the operator: a refused scrape is not a wrong answer
 	prom       *httptest.Server
 	mu         sync.Mutex
 	ingested   map[uint64]int // hash -> samples of the last successful scrape
@@ -297,7 +307,7 @@ func (s *shardProc) scrapeAll() map[int]bool {
 				s.mu.Lock()
 				s.bodyBad = append(s.bodyBad, fmt.Sprintf("target %d through shard %d: status 200, %d of %d bytes (read error: %v)", pt.tid, s.i, len(body), len(want), rerr))
 				s.mu.Unlock()
-			} else if resp.StatusCode != 200 {
+			} else if resp.StatusCode != 200 && atomic.LoadInt32(&s.stopWindow) == 0 {
 				s.mu.Lock()
 				s.bodyBad = append(s.bodyBad, fmt.Sprintf("target %d through shard %d: status %d although the target answers 200", pt.tid, s.i, resp.StatusCode))
 				s.mu.Unlock()
@@ -539,7 +549,15 @@ func runSys(c *sysCase) (vs []vkit.Violation, classes []string, infra error) {
 	}
 	var static strings.Builder
 	static.WriteString("replicas:\n- shards:\n")
-	for i := 0; i < c.Shards; i++ {
+	nShards := c.Shards
+	if c.Drift {
+		nShards++
+	}
+	driftFile := filepath.Join(dir, "prometheus-drifted.yml")
+	if c.Drift {
+		_ = ioutil.WriteFile(driftFile, []byte(strings.Replace(cfgText, "scrape_interval: 15s", "scrape_interval: 16s", 1)), 0644)
+	}
+	for i := 0; i < nShards; i++ {
 		s := &shardProc{i: i, dir: filepath.Join(dir, fmt.Sprintf("shard%d", i)), api: freePort(), proxy: freePort(), ingested: map[uint64]int{}, byID: byID}
 		if c.FullShard == i+1 && c.MaxHead != 0 {
 			s.extraHead = int(2*c.MaxHead) + 50
@@ -577,6 +595,12 @@ func runSys(c *sysCase) (vs []vkit.Violation, classes []string, infra error) {
 			if r.Method == "POST" && strings.HasPrefix(r.URL.Path, "/api/v1/status/config") {
 				atomic.AddInt64(&sp.cfgPosts, 1)
 			}
+			if r.Method == "POST" && strings.HasPrefix(r.URL.Path, "/api/v1/shard/targets") {
+				atomic.AddInt64(&sp.targetPosts, 1)
+			}
+			if r.Method == "POST" && strings.HasPrefix(r.URL.Path, "/api/v1/status/extra_config") {
+				atomic.AddInt64(&sp.extraPosts, 1)
+			}
 			if atomic.LoadInt32(&sp.paused) != 0 {
 				http.Error(w, "shard unreachable (scripted)", 503)
 				return
@@ -592,6 +616,14 @@ func runSys(c *sysCase) (vs []vkit.Violation, classes []string, infra error) {
 			"--inject.proxy", fmt.Sprintf("http://127.0.0.1:%d", s.proxy)}
 		if c.SAPath {
 			s.args = append(s.args, "--inject.kubernetes-sa-path", filepath.Join(dir, "sa-shard"))
+		}
+		if c.Drift && i == nShards-1 {
+			s.drifted = true
+			for k := range s.args {
+				if s.args[k] == "--config.file" {
+					s.args[k+1] = driftFile
+				}
+			}
 		}
 		shards = append(shards, s)
 		if err := s.start(bin); err != nil {
@@ -648,6 +680,21 @@ func runSys(c *sysCase) (vs []vkit.Violation, classes []string, infra error) {
 			lastFault = f.AtCycle
 		}
 	}
+	if c.StopAt > 0 && c.StopAt+7 > lastFault {
+		lastFault = c.StopAt + 7
+	}
+	operator := func(reason string) {
+		b, _ := json.Marshal(map[string]string{"stopScrapeReason": reason})
+		resp, err := http.Post(fmt.Sprintf("http://127.0.0.1:%d/api/v1/status/extra_config", cport), "application/json", bytes.NewReader(b))
+		if err != nil {
+			add("C13/sys/operator-request-fails", "POST extra_config to the coordinator: %v", err)
+			return
+		}
+		_ = resp.Body.Close()
+		if resp.StatusCode != 200 {
+			add("C13/sys/operator-request-fails", "POST extra_config to the coordinator answered %d", resp.StatusCode)
+		}
+	}
 	seen := atomic.LoadInt64(&shards[0].statusGets)
 	fullReported := false
 	stable := 0
@@ -681,6 +728,21 @@ func runSys(c *sysCase) (vs []vkit.Violation, classes []string, infra error) {
 		if k == 60 {
 			for _, s := range shards {
 				s.cfgPosts60 = atomic.LoadInt64(&s.cfgPosts)
+			}
+		}
+		if c.StopAt > 0 && k == c.StopAt {
+			for _, s := range shards {
+				atomic.StoreInt32(&s.stopWindow, 1)
+			}
+			operator("stopped by the operator (verif)")
+			classes = append(classes, "sys/operator-stops-and-resumes-scraping")
+		}
+		if c.StopAt > 0 && k == c.StopAt+4 {
+			operator("")
+		}
+		if c.StopAt > 0 && k == c.StopAt+7 {
+			for _, s := range shards {
+				atomic.StoreInt32(&s.stopWindow, 0)
 			}
 		}
 		for _, f := range c.Faults {
@@ -757,6 +819,17 @@ func runSys(c *sysCase) (vs []vkit.Violation, classes []string, infra error) {
 		for i, s := range shards {
 			scraped[i] = s.scrapeAll()
 		}
+		if c.StopAt > 0 && len(c.Faults) == 0 && k >= c.StopAt+2 && k <= c.StopAt+3 {
+			// at least one whole coordinator cycle has run since the operator stopped scraping
+			for i := range shards {
+				for tid, ok := range scraped[i] {
+					if ok {
+						add("C13/sys/stopped-scraping-still-succeeds", "the operator stopped scraping at cycle %d; at cycle %d shard %d still answers the scrape of target %d with the target's payload", c.StopAt, k, i, tid)
+						break
+					}
+				}
+			}
+		}
 		// ---- state after this round
 		why = nil
 		holders := map[int][]string{}
@@ -820,6 +893,18 @@ func runSys(c *sysCase) (vs []vkit.Violation, classes []string, infra error) {
 			break
 		}
 	}
+	for i, s := range shards {
+		if !s.drifted {
+			continue
+		}
+		classes = append(classes, "sys/shard-with-a-drifted-configuration-file")
+		if n := atomic.LoadInt64(&s.targetPosts); n > 0 {
+			add("C08/sys/target-update-to-out-of-sync-shard", "shard %d runs its own configuration file (scrape_interval differs, pushes refused) and was never in sync, yet it was sent %d target update(s)", i, n)
+		}
+		if n := atomic.LoadInt64(&s.extraPosts); n > 0 {
+			add("C08/sys/extra-config-to-out-of-sync-shard", "shard %d runs its own configuration file (scrape_interval differs, pushes refused) and was never in sync, yet it was sent %d extra-config update(s) (operator stopped scraping at cycle %d)", i, n, c.StopAt)
+		}
+	}
 	classes = append(classes, fmt.Sprintf("sys/cycles<=%d", (cycles+9)/10*10))
 	if !converged {
 		sort.Strings(why)
@@ -829,6 +914,9 @@ func runSys(c *sysCase) (vs []vkit.Violation, classes []string, infra error) {
 		}
 		if cycles >= 90 {
 			for i, s := range shards {
+				if s.drifted {
+					continue
+				}
 				if d := atomic.LoadInt64(&s.cfgPosts) - s.cfgPosts60; d >= 20 {
 					// the coordinator keeps pushing its configuration: it never sees this shard report its hash,
 					// although the shard was started with / was sent exactly that configuration
@@ -859,7 +947,9 @@ func runSys(c *sysCase) (vs []vkit.Violation, classes []string, infra error) {
 			add("C08/sys/runtimeinfo", "shard %d: %v", i, err)
 			continue
 		}
-		hashes[ri.ConfigHash] = true
+		if !s.drifted {
+			hashes[ri.ConfigHash] = true
+		}
 		sum := int64(0)
 		for _, pt := range s.promTargets() {
 			if t := byID[pt.tid]; t != nil && !t.Down {
@@ -959,6 +1049,10 @@ func genSys(t *rapid.T, faults bool) *sysCase {
 	c := &sysCase{Shards: rapid.IntRange(2, 4).Draw(t, "shards"), Params: rapid.Bool().Draw(t, "params"), DropRule: rapid.Bool().Draw(t, "dropRule")}
 	c.JobLabel = rapid.Bool().Draw(t, "jobLabel")
 	c.SAPath = rapid.IntRange(0, 2).Draw(t, "saPath") == 0
+	c.Drift = rapid.IntRange(0, 2).Draw(t, "drift") == 0
+	if rapid.IntRange(0, 2).Draw(t, "stop") == 0 {
+		c.StopAt = rapid.IntRange(3, 20).Draw(t, "stopAt")
+	}
 	c.MaxProc = int64(rapid.SampledFrom([]int{40, 60, 100}).Draw(t, "maxProc"))
 	n := rapid.IntRange(2, 9).Draw(t, "targets")
 	// leave room: a static shard manager cannot scale up, and one shard may start with a full head
@@ -1011,13 +1105,20 @@ func genSys(t *rapid.T, faults bool) *sysCase {
 	return c
 }
 
-var sysRule = "rapid-generated process-level runs: the real kvass coordinator (static shard manager, 40 ms interval) and 2-4 real kvass sidecar processes built from the tree under test, 2-9 targets (series 1..limit/2, some down, some oversize) in two jobs served by one HTTP server, one fake Prometheus per shard that scrapes the generated configuration's static targets through the sidecar's proxy once per observed coordinator cycle; optional faults (a sidecar killed with SIGKILL and restarted on its store, a target removed from the file followed by POST /-/reload); oracle: within 90 cycles the system reaches, and keeps for 5 cycles, the state 'every eligible target held by exactly one shard in normal state and scraped there, nothing else held', then limits, reported series, configuration hashes and the URLs the targets were asked for are judged; non-trivial = a run with >= 2 shards holding targets or a fault; distinct = digest of the case"
+var sysRule = "rapid-generated process-level runs: the real kvass coordinator (static shard manager, 40 ms interval) and 2-4 real kvass sidecar processes built from the tree under test, 2-9 targets (series 1..limit/2, some down, some oversize) in two jobs served by one HTTP server, one fake Prometheus per shard that scrapes the generated configuration's static targets through the sidecar's proxy once per observed coordinator cycle; optional faults (a sidecar killed with SIGKILL and restarted on its store, a target removed from the file followed by POST /-/reload); optionally one more sidecar that runs a drifted configuration file of its own (never in sync: it may be sent neither target nor extra-config updates), an operator who stops scraping through the coordinator's API for four cycles (every shard must refuse scrapes two cycles later), a job that authenticates with the service-account token under --inject.kubernetes-sa-path directories that differ per role, discovered job labels; oracle: within 90 cycles the system reaches, and keeps for 5 cycles, the state 'every eligible target held by exactly one shard in normal state and scraped there, nothing else held', then limits, reported series, configuration hashes and the URLs the targets were asked for are judged; non-trivial = a run with >= 2 shards holding targets or a fault; distinct = digest of the case"
 
 func sysTest(t *testing.T, prop, test string, faults bool) {
 	rec := vkit.Rec(prop, "exploration", sysRule)
 	rec.Assume("process-level runs depend on the scheduler: a run in which no coordinator cycle can be observed for 20 s is inconclusive (exit 2), never a violation; convergence is bounded in coordinator cycles (90), counted only after a configuration change has had 12 s to pass through the Prometheus discovery manager")
 	rapid.Check(t, func(t *rapid.T) {
 		c := genSys(t, faults)
+		// the runs registered under C08 / C13 always contain what their clauses are about
+		if prop == "C08" {
+			c.Drift = true
+		}
+		if (prop == "C08" || prop == "C13") && c.StopAt == 0 {
+			c.StopAt = 3 + len(c.Targets)%15
+		}
 		t0 := time.Now()
 		vs, cls, err := runSys(c)
 		if os.Getenv("VERIF_SYS_DEBUG") != "" {
@@ -1049,6 +1150,8 @@ func TestC06Sys(t *testing.T) { sysTest(t, "C06", "TestC06Sys", true) }
 func TestC04Sys(t *testing.T) { sysTest(t, "C04", "TestC04Sys", false) }
 func TestC14Sys(t *testing.T) { sysTest(t, "C14", "TestC14Sys", false) }
 func TestC16Sys(t *testing.T) { sysTest(t, "C16", "TestC16Sys", false) }
+func TestC08Sys(t *testing.T) { sysTest(t, "C08", "TestC08Sys", false) }
+func TestC13Sys(t *testing.T) { sysTest(t, "C13", "TestC13Sys", false) }
 func TestC02Sys(t *testing.T) { sysTest(t, "C02", "TestC02Sys", false) }
 func TestC12Sys(t *testing.T) { sysTest(t, "C12", "TestC12Sys", false) }
 func TestC09Sys(t *testing.T) { sysTest(t, "C09", "TestC09Sys", true) }
@@ -1079,6 +1182,8 @@ func TestReplayC06Sys(t *testing.T) { replaySys(t, "C06", "TestC06Sys") }
 func TestReplayC04Sys(t *testing.T) { replaySys(t, "C04", "TestC04Sys") }
 func TestReplayC14Sys(t *testing.T) { replaySys(t, "C14", "TestC14Sys") }
 func TestReplayC16Sys(t *testing.T) { replaySys(t, "C16", "TestC16Sys") }
+func TestReplayC08Sys(t *testing.T) { replaySys(t, "C08", "TestC08Sys") }
+func TestReplayC13Sys(t *testing.T) { replaySys(t, "C13", "TestC13Sys") }
 func TestReplayC02Sys(t *testing.T) { replaySys(t, "C02", "TestC02Sys") }
 func TestReplayC12Sys(t *testing.T) { replaySys(t, "C12", "TestC12Sys") }
 func TestReplayC09Sys(t *testing.T) { replaySys(t, "C09", "TestC09Sys") }
